@@ -135,6 +135,8 @@ type adapter struct {
 	// they announced something other than gRPC. Only used in the server-to-client direction.
 	answered bool
 	foreign  bool
+	// opaque indicates that this direction announced a grpc-encoding the adapter does not implement.
+	opaque bool
 
 	// State for the data interpreter.
 	buffer     bytes.Buffer
@@ -176,7 +178,10 @@ func (a *adapter) Header(
 			case "snappy":
 				a.encoding = Snappy
 			default:
-				return fmt.Errorf("unrecognized grpc-encoding %s in %v", h.Value, headers)
+				// A custom codec (the protocol allows any, e.g. zstd): its messages cannot be decoded for
+				// the processor, so the DATA of this direction is relayed as it is. Failing here would
+				// end the whole connection, with every other call on it.
+				a.opaque = true
 			}
 		}
 	}
@@ -208,7 +213,7 @@ func isGRPCContentType(v string) bool {
 }
 
 func (a *adapter) Data(data []byte, streamEnded bool) error {
-	if !a.isEnabled() || a.foreign {
+	if !a.isEnabled() || a.foreign || a.opaque {
 		return a.sink.Data(data, streamEnded)
 	}
 
